@@ -156,11 +156,17 @@ void hk_write(int fd, const void *buf, size_t n, long ret, int err, int nonblock
 /* reads what the child announced so far and acknowledges every announced post (a handler run of the target object follows them all) */
 static void child_drain_announcements(void)
 {
+	static atomic_flag drain_lock = ATOMIC_FLAG_INIT;
 	char b[16];
 	long n, k;
+	/* reading the bytes and counting them is one step with respect to the other reader (the handler and the look at a stuck child
+	 * may run at the same time: a handler that finds the pipe empty must also find what was read from it already counted) */
+	while (atomic_flag_test_and_set(&drain_lock))
+		sched_yield();
 	while (ch_ann[0] >= 0 && (n = __real_read(ch_ann[0], b, sizeof(b))) > 0)
 		for (k = 0; k < n; k++)
 			atomic_fetch_add(b[k] == 'p' ? &ch_announced : &ch_made, 1);
+	atomic_flag_clear(&drain_lock);
 }
 
 static void child_ack(void)
